@@ -79,6 +79,8 @@ def check_C05(ctx):
     for i in validate_batch(ctx, 'TRACE_Scan', 'TRACE_Scan.cfg', traces, 'scan')[:3]:
         again = False
         for k in range(3):
+            import shutil
+            shutil.rmtree(runs[i][1][runs[i][1].index('-dir') + 1], ignore_errors=True)       # a fresh database, as in the first run
             p = subprocess.run(runs[i][1], capture_output=True, text=True, timeout=120)
             out = runs[i][1][runs[i][1].index('-out') + 1]
             if validate_batch(ctx, 'TRACE_Scan', 'TRACE_Scan.cfg', [read_ndjson(out)], f'scanrepro{i}-{k}'):
@@ -114,8 +116,14 @@ def replay_saved(ctx, payload):
     if 'behaviour' in payload:
         mm = replay(ctx, [payload['behaviour']], payload['binding'], payload.get('binary', False), 'replay')
         return mm[0][0] if mm else None
-    p = subprocess.run([ctx.kvh()] + payload['args'], capture_output=True, text=True, timeout=120)
-    out = payload['args'][payload['args'].index('-out') + 1]
+    import shutil
+    d = ctx.sub('scan-replay')
+    args = list(payload['args'])
+    args[args.index('-dir') + 1] = os.path.join(d, 'db')
+    args[args.index('-out') + 1] = os.path.join(d, 'trace.ndjson')
+    shutil.rmtree(os.path.join(d, 'db'), ignore_errors=True)
+    p = subprocess.run([ctx.kvh()] + args, capture_output=True, text=True, timeout=120)
+    out = args[args.index('-out') + 1]
     if validate_batch(ctx, 'TRACE_Scan', 'TRACE_Scan.cfg', [read_ndjson(out)], 'replay'):
         return {'what': 'running scan rejected'}
     return None
